@@ -52,7 +52,7 @@ Definition stmt_set_dead_inv : Prop :=
     store_inv kcmp cur (set_dead i cur s).
 
 Definition stmt_set_dead_live : Prop :=
-  forall cur s i v, store_inv kcmp cur s -> find_vid i s = Some v -> vdead v = 0 ->
+  forall cur s i v, store_inv kcmp cur s -> find_vid i s = Some v -> vdead v = 0 -> vborn v < cur ->
     live_entries (set_dead i cur s) = sp_remove i (live_entries s).
 
 Definition stmt_set_dead_view : Prop :=
